@@ -220,7 +220,7 @@ def replay_on(backend, text, workdir, tag="r"):
     return real.split("\n"), open(model).read().split("\n"), rc
 
 
-ORACLE_RE = re.compile(r"ORACLE-[A-Z]+\([^)]*\)|SIZE-HINT-INEXACT|NOT-FUSED|panic:other\([^)]*\)")
+ORACLE_RE = re.compile(r"ORACLE-[A-Z]+\([^)]*\)|SIZE-HINT-INEXACT|NOT-FUSED|FOLD-MISMATCH|panic:other\([^)]*\)")
 
 
 def oracle_hits(lines):
